@@ -86,7 +86,7 @@ CHECKS = {
             "Valid side: every adapter pair state x function x configuration must return, and evaluate() of "
             "segment / chord / hierarchy must return on a complete boundary-coincidence lattice (estimate "
             "starting/ending before, at, after the reference span; boundary on its start/end; outside; empty; "
-            "window == frame_size). Fault side: 95 entry points x every documented single fault x every position "
+            "window == frame_size). Fault side: 97 entry points x every documented single fault x every position (malformed estimated intervals also strictly outside the reference span for segment/chord evaluate) "
             "must raise ValueError (InvalidChordException for chord labels) and nothing else.",
             "Only faults the task validators document are demanded; base inputs are hand-chosen valid annotations; "
             "known pre-existing failures are listed in known_findings.json with witness predicates.",
